@@ -201,9 +201,63 @@ def analyse(c, rows):
     return {"states": n, "leaves": leaves, "resid": resid, "complete": complete, "offdiag_transitions": moved}, problems
 
 
+def permute_canon(cn, sigma):
+    return (frozenset((frozenset(sigma[d] for d in own), frozenset(sigma[d] for d in cl)) for own, cl in cn[0]),
+            frozenset(sigma[d] for d in cn[1]))
+
+
+def symmetry_classes(c, cx):
+    """With exchangeable data (style 'flat': every data point carries the same likelihood rows) relabelling the data points
+    maps the kernel onto itself, so one start state per orbit of the symmetric group determines every row."""
+    import itertools
+
+    n = c["n"]
+    perms = list(itertools.permutations(range(n)))
+    rep_of = {}
+    for i, cn in enumerate(cx["canons"]):
+        if i in rep_of:
+            continue
+        for sg in perms:
+            j = cx["index"][permute_canon(cn, sg)]
+            if j not in rep_of:
+                rep_of[j] = (i, sg)
+    return rep_of
+
+
+def expand_row(cx, rep_row, sigma, j):
+    out = {}
+    for k, p in rep_row["row"].items():
+        out[cx["index"][permute_canon(cx["canons"][k], sigma)]] = p
+    return {"row": out, "leaves": 0, "outside": dict(rep_row["outside"]), "exc": dict(rep_row["exc"]), "scripts": {}, "si": j}
+
+
 def run_config(c, max_leaves_per_state=3000000, deadline=None):
     cx = context(c)
-    items = [(c, si, max_leaves_per_state) for si in range(len(cx["trees"]))]
+    n_states = len(cx["trees"])
+    if c.get("symmetric") and c["style"] == "flat":
+        rep_of = symmetry_classes(c, cx)
+        reps = sorted(set(r for r, _ in rep_of.values()))
+        # spot check of the symmetry itself on up to three non-representative states
+        others = [j for j in range(n_states) if rep_of[j][0] != j]
+        rr = random.Random(c["data_seed"])
+        spot = rr.sample(others, min(3, len(others)))
+        items = [(c, si, max_leaves_per_state) for si in reps + spot]
+        got = runner.pmap(row, items, timeout=3000, deadline=deadline)
+        if any(r is None for r in got):
+            return None, []
+        by = {r["si"]: r for r in got}
+        rows = []
+        for j in range(n_states):
+            i, sg = rep_of[j]
+            rows.append(by[j] if j == i else expand_row(cx, by[i], sg, j))
+        for j in spot:
+            a, b = by[j]["row"], rows[j]["row"]
+            if set(a) != set(b) or any(abs(a[k] - b[k]) > 1e-12 for k in a):
+                return None, [({"sub": "symmetry_spot_check_failed"}, "row of state %d is not the relabelled row of its orbit representative" % j, {})]
+        st, probs = analyse(c, rows)
+        st["orbit_representatives"] = len(reps)
+        return st, probs
+    items = [(c, si, max_leaves_per_state) for si in range(n_states)]
     rows = runner.pmap(row, items, timeout=3000, deadline=deadline)
     if any(r is None for r in rows):
         return None, []
